@@ -78,3 +78,40 @@ func init() {
 	I["internal/strconv.small"] = smallF
 	_ = fmt.Sprint
 }
+
+// xxhash.Digest as an accumulating buffer whose Sum64 is the same uninterpreted function as Sum64/Sum64String.
+func (m *Machine) digestBuf(p *Value) *[]*sym.Term {
+	if m.digests == nil {
+		m.digests = map[*Value]*[]*sym.Term{}
+	}
+	b, ok := m.digests[p]
+	if !ok {
+		b = &[]*sym.Term{}
+		m.digests[p] = b
+	}
+	return b
+}
+
+func init() {
+	I := intrinsics
+	const d = "(*github.com/cespare/xxhash/v2.Digest)."
+	I[d+"Reset"] = func(m *Machine, _ *frame, _ token.Pos, _ *ssa.Function, a []Value) Value {
+		*m.digestBuf(a[0].(*Value)) = nil
+		return nil
+	}
+	I[d+"Write"] = func(m *Machine, _ *frame, _ token.Pos, _ *ssa.Function, a []Value) Value {
+		b := m.digestBuf(a[0].(*Value))
+		bs := m.sliceBytes(a[1].(Slice))
+		*b = append(*b, bs...)
+		return Tuple{m.i64(int64(len(bs))), Iface{}}
+	}
+	I[d+"WriteString"] = func(m *Machine, _ *frame, _ token.Pos, _ *ssa.Function, a []Value) Value {
+		b := m.digestBuf(a[0].(*Value))
+		bs := m.strBytes(m.strOf(a[1]))
+		*b = append(*b, bs...)
+		return Tuple{m.i64(int64(len(bs))), Iface{}}
+	}
+	I[d+"Sum64"] = func(m *Machine, _ *frame, _ token.Pos, _ *ssa.Function, a []Value) Value {
+		return m.ufString("uf_xxhash", mkStr(*m.digestBuf(a[0].(*Value))))
+	}
+}
